@@ -401,6 +401,7 @@ class CheckRun:
         clean = []
         pstates = set()
         pviol = 0
+        pskipped = 0
         for kind, case, obs, viol, nontriv, trans, states, dt in self._run_confirmed(part, cases):
             n += 1
             self.evaluations += 1
@@ -414,6 +415,8 @@ class CheckRun:
                 else:
                     self.harness_errors.append(dict(part=part.name, case=jsonable(case), error=obs))
                     continue
+            if isinstance(obs, dict) and any(k in obs for k in ('skipped', 'skip')):
+                pskipped += 1
             d = digest(obs)
             key = digest(case)
             first_digest[key] = d
@@ -448,10 +451,11 @@ class CheckRun:
                     self.harness_errors.append(dict(part=part.name, case=jsonable(case),
                                                     error='nondeterministic observation on re-run'))
         self.parts.append(dict(part=part.name, executions=n, distinct_observations=len(pstates),
-                               violations=pviol, wall_s=round(time.time() - t0, 2),
+                               violations=pviol, skipped_by_precondition=pskipped, wall_s=round(time.time() - t0, 2),
                                bound=part.describe(tier)))
         print(f'[{self.prop}] part {part.name}: {n} executions, {len(pstates)} distinct observations, '
-              f'{pviol} oracle failures, {time.time() - t0:.1f}s', flush=True)
+              f'{pviol} oracle failures' + (f', {pskipped} skipped by a precondition' if pskipped else '') +
+              f', {time.time() - t0:.1f}s', flush=True)
 
     def _run_confirmed(self, part, cases):
         """
